@@ -15,7 +15,7 @@ PROFILE = {
 
 
 def build_cases(tier, seed):
-    n, steps = (72, 220) if tier == "quick" else (700, 500)
+    n, steps = (72, 220) if tier == "quick" else (1400, 500)
     cases = []
     for i in range(n):
         s = seed * 100000 + 19000 + i
